@@ -68,7 +68,9 @@ func TestTable(t *testing.T) {
 			}()
 			// rows that use the real DefaultJWKSFetcherStrategy run on the wall clock: it starts cache goroutines that
 			// cannot be stopped from outside, which a synctest bubble does not tolerate; nothing in them depends on the clock
-			if bubbleKinds[kind] && !bytes.Contains(r, []byte(`"keysrc":"uri`)) {
+			var compact bytes.Buffer
+			_ = json.Compact(&compact, r)
+			if bubbleKinds[kind] && !bytes.Contains(compact.Bytes(), []byte(`"keysrc":"uri`)) {
 				synctest.Test(t, func(t *testing.T) { run(rep, r) })
 			} else {
 				run(rep, r)
